@@ -110,6 +110,14 @@ func gobEncodeItem(it Item) ([]byte, error) {
 			return err
 		})
 	}
+	if IsLink(it) {
+		// links do not satisfy IsObject, so they never reach the type switch below
+		err = OnLink(it, func(l *Link) error {
+			bytes, err := l.GobEncode()
+			b.Write(bytes)
+			return err
+		})
+	}
 	if IsObject(it) {
 		switch it.GetType() {
 		case IRIType:
